@@ -56,6 +56,40 @@ def mut_calls(body, local):
     return out
 
 
+def _list_parts(prog, body, tree, subst=None, depth=0):
+    """ordered sources of a list built from two layers: chain(a, b).collect(), [a, b].concat(), or a local closure that does one of these
+    (its parameters substituted by the call's arguments) -> [arg_field-or-None, ..] or None when the form is not recognised"""
+    n = peel(tree)
+    while n.kind == "call" and method_name(n.a) in ("Iterator::cloned", "Iterator::copied", "Iterator::collect", "Vec::from", "slice::to_vec", "Iterator::map") and n.kids:
+        n = peel(n.kids[0])
+    if n.kind == "call" and method_name(n.a) == "Iterator::chain":
+        return [x for k in n.kids[:2] for x in (_list_parts(prog, body, k, subst, depth) or [_af(k, subst)])]
+    if n.kind == "call" and method_name(n.a) in ("slice::concat", "slice::join") and n.kids:
+        arr = peel(n.kids[0])
+        if arr.kind == "agg" and arr.a[0] == "array":
+            return [_af(k, subst) for k in arr.kids]
+    if n.kind == "call" and method_name(n.a) in ("Fn::call", "FnMut::call_mut", "FnOnce::call_once") and len(n.kids) == 2 and depth < 2:
+        cb, cn = closure_body(prog, body, n.kids[0])
+        tup = peel(n.kids[1])
+        if cb is not None and tup.kind == "agg" and tup.a[0] == "tuple":
+            return _list_parts(prog, cb, Origins(cb).local(0), {i + 2: k for i, k in enumerate(tup.kids)}, depth + 1)
+    return None
+
+
+def _af(node, subst):
+    n = peel(node)
+    if subst is not None and n.kind == "arg" and n.a in subst:
+        return arg_field(subst[n.a])
+    return arg_field(n)
+
+
+def _order_ok(fname, parts, self_arg, dflt_arg):
+    """documented order of the accumulating lists: `append` - inherited (lower layer) first, own last; `prepend` - own first, inherited last (mirror image,
+    so that command-line prepends run before the document's and command-line appends after them)"""
+    want = [(dflt_arg, fname), (self_arg, fname)] if fname == "append" else [(self_arg, fname), (dflt_arg, fname)] if fname == "prepend" else None
+    return want is None or parts == want
+
+
 def _merge_fields(ctx, f, label, self_arg=1, dflt_arg=2, only=None):
     prog = ctx.prog
     o = Origins(f)
@@ -104,9 +138,10 @@ def _merge_fields(ctx, f, label, self_arg=1, dflt_arg=2, only=None):
                     first, second = arg_field(ch.kids[0]), arg_field(ch.kids[1])
                     layers = {x[0] for x in (first, second) if x}
                     names = {x[1] for x in (first, second) if x}
-                    verdict = (layers == {self_arg, dflt_arg} and names == {fname},
-                               "list `%s` accumulates both layers (%s chained with %s)" % (fname, first, second),
-                               "list `%s` does not accumulate self and defaults (%s chained with %s)" % (fname, first, second))
+                    verdict = (layers == {self_arg, dflt_arg} and names == {fname} and _order_ok(fname, [first, second], self_arg, dflt_arg),
+                               "list `%s` accumulates both layers in the documented order (%s chained with %s)" % (fname, first, second),
+                               "list `%s` does not accumulate self and defaults in the documented order (%s chained with %s; append: inherited then own, prepend: own "
+                               "then inherited)" % (fname, first, second))
                 elif ch.kind == "call" and method_name(ch.a) == "Iterator::chain":
                     first, second = arg_field(ch.kids[0]), arg_field(ch.kids[1])
                     # later entries win when collecting into a map
@@ -180,9 +215,17 @@ def _merge_fields(ctx, f, label, self_arg=1, dflt_arg=2, only=None):
             elif base is not None and ext:
                 layers = {base[0]} | {e[0] for e in ext if e}
                 names = {base[1]} | {e[1] for e in ext if e}
-                verdict = (layers == {self_arg, dflt_arg} and names == {fname},
-                           "list `%s` accumulates both layers (%s then %s)" % (fname, base, ext),
-                           "list `%s` does not accumulate self and defaults (%s extended with %s)" % (fname, base, ext))
+                verdict = (layers == {self_arg, dflt_arg} and names == {fname} and _order_ok(fname, [base] + ext, self_arg, dflt_arg),
+                           "list `%s` accumulates both layers in the documented order (%s then %s)" % (fname, base, ext),
+                           "list `%s` does not accumulate self and defaults in the documented order (%s extended with %s; append: inherited then own, prepend: own then "
+                           "inherited - command-line prepends run before the document's)" % (fname, base, ext))
+        if verdict is None:
+            parts = _list_parts(prog, f, o.operand(op))
+            if parts is not None and len(parts) == 2:
+                verdict = (set(parts) == {(self_arg, fname), (dflt_arg, fname)} and _order_ok(fname, parts, self_arg, dflt_arg),
+                           "list `%s` accumulates both layers in the documented order %s" % (fname, parts),
+                           "list `%s` is built from %s: not self and defaults in the documented order (append: inherited then own, prepend: own then inherited - "
+                           "command-line prepends run before the document's)" % (fname, parts))
         if verdict is None:
             ctx.bad(key, where, "merge of `%s` is not in a recognised operator family (or/or_else/chain+collect/extend): %s" % (fname, tree.show()[:200]))
         else:
